@@ -315,3 +315,33 @@ func (c *Client) DrainEvents() []*Response {
 
 // Unparsed returns plaintext received but not yet consumed (for leak checks).
 func (c *Client) Unparsed() []byte { return c.plain }
+
+// ReadRawIdle reads raw bytes from the socket (no parsing, no decryption) until the peer closes
+// the connection or nothing arrives for the idle period. It never returns an error.
+func (c *Client) ReadRawIdle(idle time.Duration) (data []byte, closed bool) {
+	for {
+		c.Conn.SetReadDeadline(time.Now().Add(idle))
+		buf := make([]byte, 8192)
+		n, err := c.Conn.Read(buf)
+		data = append(data, buf[:n]...)
+		if err != nil {
+			if ne, ok := err.(net.Error); ok && ne.Timeout() {
+				return data, false
+			}
+			return data, true
+		}
+	}
+}
+
+// ParseResponses parses as many complete messages as the buffer holds.
+func ParseResponses(p []byte) (out []*Response, rest []byte) {
+	for len(p) > 0 {
+		r, used, err := parseOne(p)
+		if err != nil || r == nil || used <= 0 {
+			break
+		}
+		out = append(out, r)
+		p = p[used:]
+	}
+	return out, p
+}
